@@ -475,3 +475,44 @@ Theorem C10_eliminate_driverless_fork_kept :
   option_map canon (eliminate_1to1 CircuitElimOrder.stub_c') = Some (canon CircuitElimOrder.stub_c') /\
   eliminate_1to1_old CircuitElimOrder.stub_c = None.
 Proof. exact CircuitElimOrder.driverless_fork_kept. Qed.
+
+(** * 9. SOURCE tie of eliminate_1to1_forks.  Gen/CircuitElimSrc.v is the method translated statement by statement from the current
+    text of circuit.py by translate/gen_circuit_elim.py (fail-closed; vocabulary Model/CircuitElimSrcLib.v on top of
+    Model/CircuitPrimsSrcLib.v): `ios = set(self.io_nodes)` (membership by Node.__hash__ / __eq__, pinned to name + kind),
+    `for n in list(self.forks.values())` (a structural scan over the snapshot taken before the loop), the three `continue` guards, the
+    reads of in_line / out_line / out_reader / out_reader_pin, and the calls n.remove() / out_line.remove() to the primitives that
+    are themselves translated from the source (C09_prims_source_is_model).  The translated function is the hand model
+    [eliminate_1to1] on EVERY state -- no invariant is needed, the raising cases (None) included -- up to [ceq] (equal fields, object
+    stores pointwise equal; no functional extensionality is assumed).  The proof carries the facts the translation cannot see: the
+    io list is the same in every iteration (so the set taken before the loop is the port test of the model in the current state), and
+    the two attribute writes `in_line.reader = ..; in_line.reader_pin = ..` are one record update. *)
+From KV Require Import Model.CircuitPrimsSrcLib Model.CircuitElimSrcLib Gen.CircuitElimSrc Proofs.CircuitElimSrcProofs
+     Proofs.CircuitElimSrcExample.
+Theorem C10_eliminate_source_is_model : forall c, oceq (Circuit_eliminate_1to1_forks_src c) (eliminate_1to1 c).
+Proof. exact eliminate_source_is_model. Qed.
+(* ... also from a state that is only pointwise equal to the model's (e.g. after a history run on the translated primitives) *)
+Theorem C10_eliminate_source_is_model_ceq : forall a b, ceq a b -> oceq (Circuit_eliminate_1to1_forks_src a) (eliminate_1to1 b).
+Proof. exact eliminate_source_is_model_ceq. Qed.
+(* the loop BODY on one fork = elim_one *)
+Theorem C10_eliminate_body_source_is_model : forall c n,
+  oceq (Circuit_eliminate_1to1_forks_src_loop1 c (py_set_of (io c)) [n]) (elim_one c n).
+Proof. exact eliminate_body_source_is_model. Qed.
+(* concrete instance: nodes [a, f, s, g, z, r], a -> f -> g.0, s -> g.1, g -> z -> r; z (node 4) is a PORT fork with one driver and one
+   reader, f (node 1) an internal 1:1 fork, s (node 2) a fork with one reader and no driver.  The translated source removes f only. *)
+Theorem C10_eliminate_source_example :
+  run_hist CircuitElimSrcExample.ex_history = Some CircuitElimSrcExample.ex_c /\ CInv CircuitElimSrcExample.ex_c /\
+  elim_ok_b CircuitElimSrcExample.ex_c = true /\
+  in_ios CircuitElimSrcExample.ex_c 4 = true /\ List.length (outs_of CircuitElimSrcExample.ex_c 4) = 1 /\
+  ins_of CircuitElimSrcExample.ex_c 4 = [Some 3] /\
+  in_ios CircuitElimSrcExample.ex_c 1 = false /\ List.length (outs_of CircuitElimSrcExample.ex_c 1) = 1 /\
+  ins_of CircuitElimSrcExample.ex_c 1 = [Some 0] /\
+  in_ios CircuitElimSrcExample.ex_c 2 = false /\ List.length (outs_of CircuitElimSrcExample.ex_c 2) = 1 /\
+  ins_of CircuitElimSrcExample.ex_c 2 = [] /\
+  option_map CircuitElimSrcExample.summary (Circuit_eliminate_1to1_forks_src CircuitElimSrcExample.ex_c) =
+    option_map CircuitElimSrcExample.summary (eliminate_1to1 CircuitElimSrcExample.ex_c) /\
+  option_map CircuitElimSrcExample.summary (Circuit_eliminate_1to1_forks_src CircuitElimSrcExample.ex_c) =
+    Some (["a"; "r"; "s"; "g"; "z"]%string,
+          [(Some 0, 0, Some 3, 0); (Some 4, 0, Some 5, 0); (Some 2, 0, Some 3, 1); (Some 3, 0, Some 4, 0)],
+          ["a"; "s"; "z"]%string, [Some 0; Some 4]) /\
+  (exists c', Circuit_eliminate_1to1_forks_src CircuitElimSrcExample.ex_c = Some c' /\ CInv c').
+Proof. exact CircuitElimSrcExample.eliminate_source_example. Qed.
